@@ -95,7 +95,7 @@ claim('C07', 'bounded symbolic execution of the real reader on every truncation 
 
 claim('C12', 'bounded symbolic execution of the real reader on base files and on the same files with unknown options whose key and value bytes are symbolic, inserted at every position; z3 decides record equality modulo the added keys',
       'Into every header of three base files (all nine ids; utf-8, utf-16 with CRLF headers, no encoding) one unknown '
-      'option with symbolic key and value (1..3 bytes each quick / 1..4 thorough, constrained to the key/value grammar and '
+      'option with symbolic key and value (1..2 bytes each quick / 1..3 thorough, constrained to the key/value grammar and '
       'to differ from every option the library reads) is inserted at every position, and two options into selected '
       'headers; z3 shows every record equals the base run except for the added keys, reported verbatim / as integers.',
       BASE_NOTE, 'DESIGN.md section 4, C12')
